@@ -533,7 +533,10 @@ func c16Mixed(c *core.Ctx) {
 	}
 	plainBytes := rgen.Marshal(plain)
 	mixedBytes := rgen.Marshal(mixed)
-	base, err := gtfs.ParseRealtime(plainBytes, &gtfs.ParseRealtimeOptions{})
+	// the differential must hold under every timezone option: both sides are parsed with the same one
+	zo := c02Zones[r.Intn(len(c02Zones))]
+	c.Feature("zone:" + zo.name)
+	base, err := gtfs.ParseRealtime(plainBytes, &gtfs.ParseRealtimeOptions{Timezone: zo.loc})
 	c.Eval(1)
 	if err != nil {
 		c.Violationf("C16|parse-error", map[string]any{"error": err.Error()}, "ParseRealtime rejected the plain feed: %v", err)
@@ -546,13 +549,13 @@ func c16Mixed(c *core.Ctx) {
 	baseDump := canon.Dump(base, c16MixedOpts)
 	for oi, opts := range c16OptCombos {
 		ext := func() *gtfs.ParseRealtimeOptions {
-			return &gtfs.ParseRealtimeOptions{Extension: nycttrips.Extension(opts)}
+			return &gtfs.ParseRealtimeOptions{Timezone: zo.loc, Extension: nycttrips.Extension(opts)}
 		}
 		detail := func() any {
-			return map[string]any{"options": fmt.Sprintf("%+v", opts), "plain_message": prototextOf(plain)}
+			return map[string]any{"options": fmt.Sprintf("%+v", opts), "zone": zo.name, "plain_message": prototextOf(plain)}
 		}
 		// (i) plain-only feed: extension == swapM(no extension)
-		want, _ := gtfs.ParseRealtime(plainBytes, &gtfs.ParseRealtimeOptions{})
+		want, _ := gtfs.ParseRealtime(plainBytes, &gtfs.ParseRealtimeOptions{Timezone: zo.loc})
 		swapped := 0
 		if !opts.PreserveMTrainPlatformsInBushwick {
 			swapped = c16SwapM(want)
@@ -586,7 +589,7 @@ func c16Mixed(c *core.Ctx) {
 			unasserted := 0
 			for _, e := range re.Entity {
 				if tu := e.TripUpdate; tu != nil {
-					wantID := rgen.TripIDOf(tu.Trip, time.UTC, &unasserted)
+					wantID := rgen.TripIDOf(tu.Trip, zoneOr(zo.loc), &unasserted)
 					var t *gtfs.Trip
 					for i := range got.Trips {
 						if tripIDEq(got.Trips[i].ID, wantID) {
@@ -637,7 +640,7 @@ func c16Mixed(c *core.Ctx) {
 			}
 			filtered.Vehicles = append(filtered.Vehicles, mg.Vehicles[i])
 		}
-		want2, _ := gtfs.ParseRealtime(plainBytes, &gtfs.ParseRealtimeOptions{})
+		want2, _ := gtfs.ParseRealtime(plainBytes, &gtfs.ParseRealtimeOptions{Timezone: zo.loc})
 		if !opts.PreserveMTrainPlatformsInBushwick {
 			c16SwapM(want2)
 		}
@@ -702,4 +705,11 @@ func descriptorsOf(e *gtfsrt.FeedEntity) []*gtfsrt.TripDescriptor {
 		}
 	}
 	return out
+}
+
+func zoneOr(l *time.Location) *time.Location {
+	if l == nil {
+		return time.UTC
+	}
+	return l
 }
